@@ -1,9 +1,9 @@
 """READY — the RawNode hand-off (DESIGN §5.6)."""
 from ..engine import obligation, require, require_all, fn_name, callers_of, call_args
-from ..an import show, strip_generics, walk
+from ..an import show, strip_generics, walk, mk_bin, mk_field
 from ..pat import ANY, V, match, call, fld, alt, contains
-from ..pg import show_lit
-from ..idioms import as_min, as_max, is_param_of_adt
+from ..pg import show_lit, norm_lit, implies
+from ..idioms import as_min, as_max, is_param_of_adt, bool_rows, table_is_condition
 from ..templates import ObjFlow, UNINIT, DEFAULT
 from ..prog import Site
 from .commit import write_value
@@ -61,6 +61,8 @@ def persisted_partition(cx):
         cx.check(ok and seen_light, "accessor:" + name, "%s returns the light ready's messages exactly when is_persisted_msg == %s, else nothing" % (name, str(when).lower()),
                  shape=[(show(v), [show_lit(l) for l in lits]) for lits, v, _ in rets])
 
+HS = "raft_proto::protos::eraftpb::HardState"
+
 
 @obligation("READY.must_sync", ["C02", "C06", "C07"], floor=3, kind="must-pass-through under assumption",
             why="the application would be told it may defer the fsync of a vote, a snapshot or entries")
@@ -69,8 +71,29 @@ def must_sync(cx):
     g = cx.pg(rd)
     ret = _ret_site(cx, rd)
     cx.need(ret is not None, "return of RawNode::ready")
-    sync_blocks = _write_blocks(cx, rd, "Ready.must_sync", ("bool", True))
-    cx.need(sync_blocks, "write `must_sync := true` in RawNode::ready")
+    sites = {}
+    for s in cx.prog.writes.get("Ready.must_sync", []):
+        if s.fn is rd:
+            sites.setdefault(s.block, []).append(s)
+    cx.need(sites, "a write of `must_sync` in RawNode::ready")
+
+    def truth(assume):
+        # the value stored by the node's last write of must_sync, evaluated in the node's environment: constant
+        # true, or a condition the assumption implies (`must_sync = vote_changed || term_changed`)
+        def ev(n):
+            ss = sites.get(g.nodes[n][0])
+            if not ss:
+                return None
+            s = max(ss, key=lambda s: (s.idx == "term", s.idx if s.idx != "term" else 0))
+            if "stmt" not in s.data:
+                return False
+            v = g.an.expr_rvalue(s.data["stmt"]["rv"], s.at, 0, g.envs[n] or None)
+            lit = norm_lit(cx.facts, v, True)
+            return lit == ("const", True) or any(implies(a, lit) for a in assume)
+        return ev
+
+    def forced(assume):
+        return g.holds_at_exit(truth(assume), assume=assume)[0]
     # collect the condition literals as they appear in ready()
     lits = set()
     for n in range(len(g.nodes)):
@@ -81,16 +104,19 @@ def must_sync(cx):
         return [l for l in lits if pred(l)]
     hs_diff = find(lambda l: l[0] == "is" and l[2] is False and l[1][0] == "bin" and l[1][1] == "Eq" and contains(call("~Raft::hard_state", ANY), l[1]) and not contains(fld("HardState.vote"), l[1]) and not contains(fld("HardState.term"), l[1]))
     for fld_name in ("vote", "term"):
-        cand = find(lambda l: l[0] == "is" and l[2] is False and l[1][0] == "bin" and l[1][1] == "Eq" and all(is_f(x, "HardState." + fld_name) for x in l[1][2:4]) and any(contains(fld("RawNode.prev_hs"), x) for x in l[1][2:4]))
+        # the assumption `hs.<f> != prev_hs.<f>`, built from the operands of the whole-struct comparison (the code
+        # need not branch on it: `must_sync = vote_changed || term_changed` stores the comparison itself)
+        cand = [norm_lit(cx.facts, mk_bin("Eq", mk_field(l[1][2], HS, fld_name), mk_field(l[1][3], HS, fld_name)), False) for l in hs_diff
+                if any(contains(fld("RawNode.prev_hs"), x) for x in l[1][2:4])]
         ok = bool(cand)
         for c in cand:
-            ok = ok and g.dominated_by_block(ret.at, lambda b: b in sync_blocks, assume=[c] + hs_diff)
-        cx.check(ok, "hs." + fld_name, "ready(): if hs.%s differs from prev_hs.%s, must_sync := true is set before the Ready is returned" % (fld_name, fld_name), ret)
+            ok = ok and forced([c] + hs_diff)
+        cx.check(ok, "hs." + fld_name, "ready(): if hs.%s differs from prev_hs.%s, the Ready is returned with must_sync = true" % (fld_name, fld_name), ret)
     snap = find(lambda l: l[0] == "in" and l[2] == frozenset(["Some"]) and is_f(l[1], "Unstable.snapshot"))
-    ok = bool(snap) and all(g.dominated_by_block(ret.at, lambda b: b in sync_blocks, assume=[c]) for c in snap)
+    ok = bool(snap) and all(forced([c]) for c in snap)
     cx.check(ok, "snapshot", "ready(): an unstable snapshot forces must_sync", ret)
     ents = find(lambda l: l[0] == "in" and l[2] == frozenset(["Some"]) and l[1][0] == "call" and l[1][1].endswith("::last") and contains(fld("Ready.entries"), l[1]))
-    ok = bool(ents) and all(g.dominated_by_block(ret.at, lambda b: b in sync_blocks, assume=[c]) for c in ents)
+    ok = bool(ents) and all(forced([c]) for c in ents)
     cx.check(ok, "entries", "ready(): non-empty entries force must_sync", ret)
     # and rd.entries really is the unstable suffix
     ok = False
@@ -199,7 +225,7 @@ def has_ready_agreement(cx):
     hr = cx.fn("RawNode::has_ready")
     rd = cx.fn("RawNode::ready")
     glr = cx.fn("RawNode::gen_light_ready")
-    rets = cx.pg(hr).returns()
+    rets = bool_rows(cx.facts, cx.pg(hr).returns())
     true_lits = []
     for lits, v, _ in rets:
         if v == ("bool", True) and lits:
@@ -209,6 +235,18 @@ def has_ready_agreement(cx):
         in_has = any(l[0] in ("is", "in", "notin") and pred(l[1]) for l in true_lits)
         in_ready = any(pred(e) for e in ready_exprs)
         cx.check(in_has and in_ready, "source:" + name, "%s is consulted by both has_ready() (%s) and ready() (%s)" % (name, in_has, in_ready))
+    # the two state comparisons must be as wide in has_ready() as in ready(): the whole struct, or every data field of
+    # it (a has_ready that looks at term and vote only never announces a Ready that carries nothing but a new commit index)
+    for name, adt in (("soft_state", "raft::raft::SoftState"), ("hard_state", HS)):
+        pred = dict(SOURCES)[name]
+        ad = cx.facts.adt(adt)
+        cx.need(ad, "struct " + adt)
+        short = adt.split("::")[-1]
+        fields = {f["name"] for f in ad["variants"][0]["fields"] if f["name"] not in ("unknown_fields", "cached_size")}
+        ls = [l for l in true_lits if l[0] == "is" and l[2] is False and l[1][0] == "bin" and l[1][1] == "Eq" and pred(l[1])]
+        whole = any(not any(x[0] == "field" and x[2].startswith(short + ".") for x in walk(l[1])) for l in ls)
+        per = {f for l in ls for f in fields if all(is_f(x, short + "." + f) for x in l[1][2:4])}
+        cx.check(whole or per == fields, "width:" + name, "has_ready() compares the whole %s with the one last handed out, like ready() (fields compared: %s)" % (short, "all" if whole else sorted(per)))
     extra = [show_lit(l) for l in true_lits if not any(pred(l[1]) for _, pred in SOURCES)]
     cx.check(not extra, "no-extra", "has_ready() announces nothing that ready() does not fill (unmatched conditions: %s)" % extra[:4])
     cx.check(any(v == ("bool", False) for _, v, _ in rets), "false-path", "has_ready() can answer false")
@@ -249,7 +287,7 @@ def handoff_bounds(cx):
             return l[0] == "is" and l[2] is True and l[1] == ("bin", "Lt", lo, hi)
         require(cx, c, "guard", "slice(lo, hi) is taken only if hi > lo", nonempty, kill=False)
     rets = cx.pg(hnes).returns()
-    ok = len(rets) == 1 and lo is not None and rets[0][1] == ("bin", "Lt", lo, hi)
+    ok = lo is not None and table_is_condition(cx.facts, rets, ("bin", "Lt", lo, hi))
     cx.check(ok, "sibling", "has_next_entries_since computes the same bounds as next_entries_since (found %s)" % (show(rets[0][1]) if rets else None))
     # the consumer: gen_light_ready
     glr = cx.fn("RawNode::gen_light_ready")
